@@ -275,15 +275,20 @@ def _intmat(draw, m, n):
 
 @st.composite
 def poly_vec(draw, N, k, deg, depth):
-    """vector expression of length k whose entries are polynomials of degree <= deg (deg >= 1)"""
-    choices = ['leaf']
-    if depth > 0:
-        choices += ['add', 'sub', 'cop', 'neg', 'stack']
-        if deg >= 2:
-            choices += ['mul', 'mul', 'pow', 'pow', 'smul', 'smul']
+    """vector expression of length k whose entries are polynomials of degree <= deg (deg >= 1); the degree budget is
+    spent with high probability (products / powers are preferred while budget and depth remain)"""
+    if depth <= 0:
+        choices = ['leaf']
+    elif deg == 1:
+        choices = ['leaf', 'leaf', 'leaf', 'add', 'sub', 'cop', 'neg', 'stack']
+    else:
+        choices = ['mul', 'mul', 'mul', 'pow', 'pow', 'smul', 'smul', 'add', 'sub', 'cop', 'stack', 'leaf']
     ch = draw(st.sampled_from(choices))
+    if ch == 'leaf' and deg >= 2 and draw(st.booleans()):
+        # spend the remaining budget on a power of a linear leaf
+        return ['pow', draw(poly_vec(N, k, 1, 0)), draw(st.sampled_from([deg, deg] + list(range(2, deg + 1))))]
     if ch == 'leaf':
-        forms = ['cdot']
+        forms = ['cdot', 'cdot', 'cdot']
         if k == N:
             forms += ['x', 'x', 'x', 'rev']
         elif k < N:
@@ -314,7 +319,7 @@ def poly_vec(draw, N, k, deg, depth):
         d1 = draw(st.integers(1, deg - 1))
         return ['mul', draw(poly_vec(N, k, d1, depth - 1)), draw(poly_vec(N, k, deg - d1, depth - 1))]
     if ch == 'pow':
-        n = draw(st.integers(2, deg))
+        n = draw(st.sampled_from([deg] + list(range(2, deg + 1))))
         return ['pow', draw(poly_vec(N, k, deg // n, depth - 1)), n]
     # scalar times vector, either order
     d1 = draw(st.integers(1, deg - 1))
@@ -325,14 +330,22 @@ def poly_vec(draw, N, k, deg, depth):
 
 @st.composite
 def poly_scalar(draw, N, deg, depth):
-    choices = ['leaf']
-    if depth > 0:
-        choices += ['idx', 'sum', 'sum', 'cvdot', 'add', 'sub', 'cop', 'neg']
-        if deg >= 2:
-            choices += ['mul', 'mul', 'pow', 'pow', 'dot', 'dot']
+    if depth <= 0:
+        choices = ['leaf']
+    elif deg == 1:
+        choices = ['leaf', 'leaf', 'idx', 'sum', 'cvdot', 'cvdot', 'add', 'sub', 'cop', 'neg']
+    else:
+        choices = ['mul', 'mul', 'pow', 'pow', 'dot', 'dot', 'dot', 'sum', 'sum', 'idx', 'cvdot', 'add', 'sub', 'cop']
     ch = draw(st.sampled_from(choices))
     if ch == 'leaf':
-        return ['idx', ['x'], draw(st.integers(-N, N - 1))]
+        # a single variable or a linear form a.x (powers / products of linear forms carry mixed monomials)
+        if draw(st.booleans()):
+            lf = ['idx', ['x'], draw(st.integers(-N, N - 1))]
+        else:
+            lf = ['cdot', draw(_intmat(1, N))[0], ['x']]
+        if deg >= 2 and draw(st.booleans()):
+            return ['pow', lf, draw(st.sampled_from([deg, deg] + list(range(2, deg + 1))))]
+        return lf
     k = draw(st.integers(1, max(1, min(N, 4))))
     if ch == 'idx':
         return ['idx', draw(poly_vec(N, k, deg, depth - 1)), draw(st.integers(0, k - 1))]
@@ -352,7 +365,7 @@ def poly_scalar(draw, N, deg, depth):
         d1 = draw(st.integers(1, deg - 1))
         return ['mul', draw(poly_scalar(N, d1, depth - 1)), draw(poly_scalar(N, deg - d1, depth - 1))]
     if ch == 'pow':
-        n = draw(st.integers(2, deg))
+        n = draw(st.sampled_from([deg] + list(range(2, deg + 1))))
         return ['pow', draw(poly_scalar(N, deg // n, depth - 1)), n]
     d1 = draw(st.integers(1, deg - 1))
     return ['dot', draw(poly_vec(N, k, d1, depth - 1)), draw(poly_vec(N, k, deg - d1, depth - 1))]
@@ -364,7 +377,7 @@ def poly_program(draw, N, out, deg=None, depth=None):
     if deg is None:
         deg = draw(st.sampled_from([1, 2, 2, 3, 3, 4, 5]))
     if depth is None:
-        depth = draw(st.sampled_from([1, 2, 2, 3]))
+        depth = draw(st.sampled_from([1, 2, 2, 3, 3]))
     if out == 'scalar':
         return draw(poly_scalar(N, deg, max(depth, 1)))
     if out == 'vector':
